@@ -65,7 +65,7 @@ def cases(tier, seed):
     dtypes = S.probe_types(statuses=["reporting", "nonrep_partial", "unexpected", "zero_baseline", "missing"], locations=["pop0", "newcounty"])
     for st_loc in dtypes:
         for d in ("1", "10", "7"):
-            for setup in ("np1", "bs1") if tier == "quick" else ("np1", "ga1", "bs1"):
+            for setup in ("np1", "np2", "bs1") if tier == "quick" else ("np1", "np2", "ga1", "bs1"):
                 for agg in S.AGG_LISTS_H:
                     out.append(
                         dict(
